@@ -15,3 +15,8 @@ Definition chan_state : Z := 32.
 Definition chan_data : Z := 33.
 Definition chan_vote : Z := 34.
 Definition chan_vsb : Z := 35.
+Definition max_tx_announces : Z := 4096.
+Definition max_tx_retrievals : Z := 256.
+Definition tx_arrive_timeout_ms : Z := 500.
+Definition tx_gather_slack_ms : Z := 100.
+Definition tx_fetch_timeout_ms : Z := 5000.
